@@ -187,20 +187,18 @@ def map_(
         a_task = compose(*tasks)
 
     def then(a_task: Task) -> Promise:
+        def eval_calls(values: Sequence[Any]) -> Promise:
+            # Record dataflow: the result of map_ comes from the individual task calls.
+            calls = [a_task(value) for value in values]
+            sexpr._upstreams = [calls]
+            return scheduler.evaluate(calls, parent_job=parent_job)
+
         if isinstance(values, (list, tuple)):
             # Ready to perform parallel map.
-            return scheduler.evaluate(
-                [a_task(value) for value in values],
-                parent_job=parent_job,
-            )
+            return eval_calls(values)
         else:
             # Need to evaluate list first.
-            return scheduler.evaluate(values, parent_job=parent_job).then(
-                lambda values: scheduler.evaluate(
-                    [a_task(value) for value in values],
-                    parent_job=parent_job,
-                )
-            )
+            return scheduler.evaluate(values, parent_job=parent_job).then(eval_calls)
 
     # Evaluate task first, in case it's an expression.
     return scheduler.evaluate(a_task, parent_job=parent_job).then(then)
